@@ -103,6 +103,20 @@ def run(ctx, rep):
                               '%s releases clusters whose address does not derive from the reference being removed' % short(b.path))
     rep.floor('free_clusters call sites', n, 6)
     stale_entry_rule(f, P, rep)
+    # C03.6: a mapping is installed / removed on a decision read under the same slice write guard
+    from ..critsec import check_then_act
+    rep.rule('C03.6', 'mappings are installed and removed on a decision read through the slice write guard the mutation happens under '
+                      '(two racing writers do not both allocate for one guest cluster; two racing discards do not both release)')
+    ncta = 0
+    for (fn, where, mname, ok, why) in check_then_act(f, P):
+        ncta += 1
+        rep.ob('C03.6', '%s: %s at %s' % (fn, mname, where), ok, why)
+        if not ok:
+            rep.violation('C03.6', 'C03.6:%s:%s' % (fn, mname), where,
+                          '%s applies %s through a slice write guard without deciding it on a value read through that guard: of two '
+                          'racing operations on one guest cluster the second overwrites the entry of the first, whose host cluster '
+                          'keeps its refcount with no reference (leak), or both release the same cluster (%s)' % (fn, mname, why))
+    rep.floor('mutations through slice write guards', ncta, 6)
     zc = zero_count_releases(f, P)
     for (fn, where, ok) in zc:
         rep.ob('C03.3', 'release count in %s at %s' % (fn, where), ok, 'count is not the constant 0 on any path')
